@@ -11,7 +11,7 @@ import (
 	"verifharness/internal/gen"
 )
 
-var decodeWAF, decodeLimitWAF coraza.WAF
+var decodeWAF, decodeLimitWAF, decodeRoomyWAF coraza.WAF
 
 func dumpColl(c collection.Collection) string {
 	var out []string
@@ -47,9 +47,21 @@ func execDecode(a []string) string {
 		}
 		decodeLimitWAF = w
 	}
+	if decodeRoomyWAF == nil {
+		w, err := coraza.NewWAF(coraza.NewWAFConfig().WithDirectives("SecRuleEngine On\nSecArgumentsLimit 12\n"))
+		if err != nil {
+			panic(err)
+		}
+		decodeRoomyWAF = w
+	}
 	waf := decodeWAF
 	if a[0] == "limit" {
 		waf = decodeLimitWAF
+	}
+	if a[0] == "queryL" {
+		// a request far below an argument limit of 12, on a WAF whose (pooled) transactions have seen many other names
+		waf = decodeRoomyWAF
+		a = append([]string{"query"}, a[1:]...)
 	}
 	tx := waf.NewTransaction()
 	defer tx.Close()
@@ -173,6 +185,13 @@ func init() {
 			raw := strings.Join(parts, sep)
 			if c.r.Chance(0.1) {
 				raw += c.r.Pick("&", "&&", "=", "%", "%4", "#frag", ";")
+			}
+			if kind == "query" && c.r.Chance(0.3) {
+				c.stats.Hit("kind:queryL")
+				if c.r.Chance(0.5) {
+					raw += fmt.Sprintf("&u%d=%d", c.r.Intn(400), c.r.Intn(10))
+				}
+				kind = "queryL"
 			}
 			c.run("decode", kind, gen.Field(raw))
 		}
